@@ -358,8 +358,8 @@ type FC struct {
 
 type DStep struct {
 	EP        int      `json:"ep"`
-	Listing   []string `json:"listing"`             // names the scripted client reports ("" = an entry with an empty name)
-	Fail      bool     `json:"fail,omitempty"`      // the client returns an error instead
+	Listing   []string `json:"listing"`              // names the scripted client reports ("" = an entry with an empty name)
+	Fail      bool     `json:"fail,omitempty"`       // the client returns an error instead
 	SetFilter bool     `json:"set_filter,omitempty"` // install Filter (nil = remove) for this endpoint before discovering
 	Filter    *FC      `json:"filter,omitempty"`
 }
@@ -632,6 +632,7 @@ func runDiscoveryCase(c DiscoveryCase) []ev.Violation {
 			nt = nt || false
 			rec.Class("discovery-step=shared-model-dropped")
 		}
+		ref.beginStep()
 		ref.register(st.EP, passing, len(passing), "discover")
 		opt.hist = hs
 		o := settledObservation(base, take, func(o *observation) bool { return len(judge(ref, o, opt)) == 0 })
